@@ -128,7 +128,9 @@ def run_tlc(module, cfg, env, wd, workers=8, timeout=1500, heap="4g", simulate=N
             res["states"], res["distinct"] = int(m.group(1)), int(m.group(2))
     ok = ("Model checking completed. No error has been found." in out) or (simulate and "Progress" in out and p.returncode in (0,))
     if not ok:
-        tail = "\n".join([l for l in out.splitlines() if not l.startswith("<<")][-40:])
+        ls = [l for l in out.splitlines() if not l.startswith("<<") and not l.startswith("Loading ")]
+        first = next((i for i, l in enumerate(ls) if l.startswith("Error")), max(0, len(ls) - 40))
+        tail = "\n".join(ls[first:first + 25])
         raise ToolError("TLC did not complete on %s (rc=%d):\n%s" % (module, p.returncode, tail))
     return res
 
@@ -310,8 +312,8 @@ def p1_job(run, name, module, scope, profile="dev", workers=8, timeout=1500, non
         label = view_label(cfg) if view_label else kind_of(cfg)
         detail = {"cfg": cfg, "inputs": hist, "unit": scope.get("unit", 1), "extra": v[5:]}
         replay = {"kind": "p1", "module": module, "cfg": cfg, "inputs": hist, "unit": scope.get("unit", 1),
-                  "float": scope.get("float", "f64"), "profile": profile, "extras": scope.get("extras", False),
-                  "taps": scope.get("taps", False), "env": extra_env or {}}
+                  "float": scope.get("float", "f64"), "profile": profile, "env": extra_env or {},
+                  "scope_rest": {k: v for k, v in scope.items() if k not in ("cfgs", "alphabet", "maxlen")}}
         run.add_violation(label, clause, cfg, detail, replay)
     if len(run.samples) < 12 and scope["cfgs"]:
         run.samples.append({"job": name, "cfg": scope["cfgs"][0], "example_history": decode_hist(a ** scope["maxlen"] // 3, scope["maxlen"], scope["alphabet"]),
